@@ -329,8 +329,8 @@ pub fn match_open<'a>(findings: &'a [Finding], f: &Failure) -> Option<&'a Findin
     findings.iter().find(|k| {
         k.status == "open"
             && k.property == f.property
-            && k.clause == f.clause
-            && k.tags.iter().all(|t| f.tags.contains(t))
+            && k.clause.split('|').any(|c| c == f.clause)
+            && k.tags.iter().all(|t| t.split('|').any(|alt| f.tags.iter().any(|ft| ft == alt)))
     })
 }
 
